@@ -55,17 +55,30 @@ def run_case(job):
             elif kind == "tree":
                 tree = Tree(parents, contents)
                 b.build(tree.spec("proj/in"))
+            elif kind == "quiet":
+                # modules in which nothing is documented (plain commands only, empty, comments only) next to an ordinary one
+                b.build({"proj/in/versions.cmake": "set(V_MAJOR 1)\nset(V_MINOR 2)\nmessage(STATUS \"v\")\n", "proj/in/empty.cmake": "",
+                         "proj/in/comments.cmake": "# only a comment\n#[[ and a bracket comment ]]\n", "proj/in/a.cmake": fsbox.cmake_content("a.cmake"),
+                         "proj/in/sub/plain.cmake": "include(other)\n", "proj/in/sub/b.cmake": fsbox.cmake_content("b.cmake")})
+            elif kind == "filelink":
+                # symbolic links to CMake files (same directory, other directory) next to ordinary modules
+                b.build({"proj/in/find_zlib.cmake": fsbox.cmake_content("find_zlib"), "proj/in/a.cmake": fsbox.cmake_content("a.cmake"),
+                         "proj/in/sub/b.cmake": fsbox.cmake_content("b.cmake"), "proj/shared/impl.cmake": fsbox.cmake_content("impl")})
+                os.symlink("find_zlib.cmake", b.path("work", "proj", "in", "FindZLIB.cmake"))
+                os.symlink(os.path.join("..", "..", "shared", "impl.cmake"), b.path("work", "proj", "in", "sub", "Impl.cmake"))
+            elif kind == "quietfile":
+                b.build({"proj/in/lone.cmake": "set(ONLY_PLAIN 1)\n", "proj/in/other.cmake": fsbox.cmake_content("other")})
             else:
                 b.build({"proj/in/lone.cmake": fsbox.cmake_content("lone"), "proj/in/other.cmake": fsbox.cmake_content("other")})
             b.build({"proj/readme.txt": "outside the input\n", "../home/dot.txt": "home\n"})
             with open(b.path("work", "s.yaml"), "w") as f:
                 f.write(SETTINGS[sname] or "{}\n")
-        inp = "proj/in" if kind in ("tree", "prefixdirs", "warn") else "proj/in/lone.cmake"
+        inp = "proj/in" if kind in ("tree", "prefixdirs", "warn", "quiet", "filelink") else "proj/in/lone.cmake"
         if outmode.endswith("+symlink"):
             # the input is reached through a symbolic link to its directory
             for b in (box, box2):
                 os.symlink(os.path.join("proj", "in"), b.path("work", "lnk"))
-            inp = "lnk" if kind in ("tree", "prefixdirs", "warn") else "lnk/lone.cmake"
+            inp = "lnk" if kind in ("tree", "prefixdirs", "warn", "quiet", "filelink") else "lnk/lone.cmake"
             outmode = outmode[:-len("+symlink")]
         out = {"abs": box.path("outside", "o"), "rel": "o/p", "nested": "proj/in/_docs", "parent": "proj",
                "prepop": "o", "nested-prefix": "proj/in/api"}[outmode]
@@ -73,6 +86,9 @@ def run_case(job):
         if outmode == "prepop":
             foreign = {"o/foreign.txt": "keep me\n", "o/notes/keep.rst": "unrelated page\n", "o/a.rst": "stale page that is longer than anything generated " * 40 + "\n",
                        "o/overview.rst": "hand-written page next to the generated ones\n", "o/conf.py": "# sphinx\n"}
+            if kind in ("file", "quietfile"):
+                # a lone file does not get an index: a hand-written one (or one left by an earlier run) stays as it is
+                foreign["o/index.rst"] = "Hand-written root page\n======================\n\n.. toctree::\n\n   overview\n"
             if kind == "tree" and len(parents) > 1:
                 # ... and in a directory that mirrors an input sub-directory
                 foreign[f"o/{tree.rel(1)}/usage.rst"] = "hand-written page in a mirrored directory\n"
@@ -231,6 +247,11 @@ def run(ctx):
     for outmode in ("abs", "rel", "nested", "prepop"):
         for recursive in (True, False):
             jobs.append(("warn", None, None, recursive, outmode, "default"))
+            for kind in ("quiet", "filelink"):
+                for sname in ("default", "all-off"):
+                    jobs.append((kind, None, None, recursive, outmode, sname))
+        for sname in ("default", "all-off"):
+            jobs.append(("quietfile", None, None, False, outmode, sname))
     for outmode in ("nested-prefix", "nested", "abs", "rel"):
         for recursive in (True, False):
             jobs.append(("prefixdirs", None, None, recursive, outmode, "default"))
